@@ -1,4 +1,4 @@
-CONSTANTS SegMax = 3  NodeId = 1  Walk = FALSE  WalkLen = 0  ProbeKind = "full"  PumpN = 8  ProbeReset = FALSE
+CONSTANTS SegMax = 3  NodeId = 1  Walk = FALSE  WalkLen = 0  ProbeKind = "full"  PumpN = 8  ProbeReset = FALSE  ProbeB = TRUE
 CONSTANT Dict <- MCDict  Mux <- MCMux  Letters <- LettersQuick
 INIT Init
 NEXT Next
